@@ -68,7 +68,8 @@ Inductive event :=
 | EListenerAdd (e : endpoint) (dc rack : option Z)
 | ELbpRemove (e : endpoint)
 | EListenerRemove (e : endpoint)
-| ERebuild (a : assignment).                         (* Metadata.rebuild_token_map(partitioner, token_map) *)
+| ERebuild (a : assignment)                          (* Metadata.rebuild_token_map(partitioner, token_map) *)
+| EOutOfFuel.                                        (* model artefact: recursion budget of refresh_live exhausted (proved unreachable) *)
 
 (* ------------------------------------------------------------------ rows *)
 (* _NodeInfo.get_broadcast_rpc_address *)
@@ -216,6 +217,58 @@ Definition refresh (c : config) (force : bool) (st : state) (sn : snapshot) : st
     ({| st_hosts := hosts_after c st sn; st_partitioner := st_partitioner st; st_tokens := st_tokens st |},
      notifications c st sn).
 
+(* ------------------------------------------------------------------ the same refresh on a LIVE control connection
+   Cluster.remove_host(host): `if host and self.metadata.remove_host(host): self.on_remove(host)`; Cluster.on_remove notifies the
+   policies and listeners and then calls ControlConnection.on_remove(host), which (the removed host not being the control
+   node) runs refresh_node_list_and_token_map(force_token_rebuild=True): a NESTED refresh of the same system tables, inside
+   the removal loop of the outer one.  The outer loop then goes on over its stale copy of all_hosts(); hosts the nested
+   refresh already removed are skipped because Metadata.remove_host returns False for them. *)
+Definition remove_host (e : endpoint) (hs : hosts) : hosts :=
+  filter (fun eh : endpoint * host => negb (ep_eqb (fst eh) e)) hs.
+
+Definition with_hosts (st : state) (hs : hosts) : state :=
+  {| st_hosts := hs; st_partitioner := st_partitioner st; st_tokens := st_tokens st |}.
+
+(* the removal loop over the stale list `l` of endpoints; `rec` = the nested refresh.  Returns state, notifications,
+   and whether should_rebuild_token_map was set *)
+Fixpoint remove_loop (rec : state -> state * list event) (K : endpoint -> bool) (l : list endpoint) (s : state)
+  : state * list event * bool :=
+  match l with
+  | [] => (s, [], false)
+  | e :: l' =>
+      if K e then remove_loop rec K l' s
+      else if mem e (map fst (st_hosts s)) then
+        let '(s2, ev2) := rec (with_hosts s (remove_host e (st_hosts s))) in
+        let '(s3, ev3, _) := remove_loop rec K l' s2 in
+        (s3, [ELbpRemove e; EListenerRemove e] ++ ev2 ++ ev3, true)
+      else
+        let '(s3, ev3, _) := remove_loop rec K l' s in (s3, ev3, true)
+  end.
+
+Fixpoint refresh_live (fuel : nat) (c : config) (force : bool) (st : state) (sn : snapshot) : state * list event :=
+  match fuel with
+  | O => (st, [EOutOfFuel])
+  | S n =>
+      let mid := hosts_mid c st sn in
+      let '(s2, ev2, removed) :=
+        remove_loop (fun s => refresh_live n c true s sn) (keep c (found_all c st sn)) (map fst mid) (with_hosts st mid) in
+      let evs := lr_events (local_part c st sn) ++ snd (fst (peers_part c st sn)) ++ ev2 in
+      let rebuild := force || negb (st_partitioner st) || snd (peers_part c st sn) || removed in
+      if lr_part (local_part c st sn) && rebuild then
+        ({| st_hosts := st_hosts s2; st_partitioner := true; st_tokens := Some (snapshot_tokens c st sn) |},
+         evs ++ [ERebuild (snapshot_tokens c st sn)])
+      else (s2, evs)
+  end.
+
+(* enough fuel for any state: every nested refresh starts with strictly fewer hosts *)
+Definition live_fuel (c : config) (st : state) (sn : snapshot) : nat := S (length (hosts_mid c st sn)).
+
+Fixpoint run_live (c : config) (st : state) (steps : list (bool * snapshot)) : list (state * list event) :=
+  match steps with
+  | [] => []
+  | (f, sn) :: rest => let '(st', ev) := refresh_live (live_fuel c st sn) c f st sn in (st', ev) :: run_live c st' rest
+  end.
+
 (* any sequence of (force_token_rebuild, snapshot) *)
 Fixpoint run (c : config) (st : state) (steps : list (bool * snapshot)) : list (state * list event) :=
   match steps with
@@ -269,6 +322,9 @@ Fixpoint steps_eqb (m : list (state * list event)) (i : list (hosts * list event
 
 Definition run_eqb (c : config) (st : state) (steps : list (bool * snapshot)) (seen : list (hosts * list event * bool)) : bool :=
   steps_eqb (run c st steps) seen.
+
+Definition run_live_eqb (c : config) (st : state) (steps : list (bool * snapshot)) (seen : list (hosts * list event * bool)) : bool :=
+  steps_eqb (run_live c st steps) seen.
 
 (* short constructors for generated cases *)
 Definition Rw := Build_row.
